@@ -39,6 +39,8 @@ def check(repo: Repo, R) -> None:
     R.run(small_pdks, repo, R, prims)
     R.run(registry, repo, R)
     R.run(logic_cells, repo, R)
+    R.run(lookup_failures_converted, repo, R)
+    R.run(request_not_mutated, repo, R)
     R.floor("C15.1-walkers-only-swap-targets", 5)
     R.floor("C15.2-port-compatibility", 150)
     R.floor("C15.3-selection-well-formed", 8)
@@ -489,3 +491,115 @@ def logic_cells(repo: Repo, R):
         for c, _b in pat.find("h.ExternalModule(*$_)", f.node):
             kw = {k.arg: ast.unparse(k.value) for k in c.keywords}
         R.check(ok and kw.get("name") == "modname" and kw.get("domain") == "PDK_NAME", rule, key_of(f), f.site, f"{pdk}.logic_module: one port per terminal in order, named as given, module name = modname, domain = the PDK: {ok}", why="cells get other names or port orders than the library's")
+
+
+
+_LOOKUP_SAMPLE = """
+def f(self, params):
+    try:
+        return next(v for k, v in xtors.items() if params.model in k)
+    except IndexError:
+        raise RuntimeError("no such model")
+"""
+
+
+def _lookup_handler_mismatches(fn: ast.AST) -> List[Tuple[ast.Try, str]]:
+    """try-blocks that turn a failed lookup into an error message, where the handler does not name what the lookup raises."""
+    out = []
+    for t in ast.walk(fn):
+        if not isinstance(t, ast.Try) or not t.handlers:
+            continue
+        caught = set()
+        for h in t.handlers:
+            if h.type is None:
+                caught.add("BaseException")
+            else:
+                for e in (h.type.elts if isinstance(h.type, ast.Tuple) else [h.type]):
+                    caught.add(ast.unparse(e).split(".")[-1])
+        if caught & {"Exception", "BaseException"}:
+            continue
+        body = ast.Module(t.body, [])
+        raises = set()
+        for n in ast.walk(body):
+            if isinstance(n, ast.Call) and isinstance(n.func, ast.Name) and n.func.id == "next" and len(n.args) == 1:
+                raises.add("StopIteration")
+            if isinstance(n, ast.Subscript) and isinstance(n.ctx, ast.Load):
+                if isinstance(n.value, (ast.List, ast.ListComp, ast.Tuple)) or (isinstance(n.value, ast.Call) and isinstance(n.value.func, ast.Name) and n.value.func.id in ("list", "tuple", "sorted")):
+                    raises.add("IndexError")
+                elif isinstance(n.value, (ast.Dict, ast.DictComp)):
+                    raises.add("KeyError")
+        lookupish = caught & {"IndexError", "KeyError", "StopIteration", "LookupError"}
+        if not lookupish:
+            continue
+        covered = set(caught)
+        if "LookupError" in caught:
+            covered |= {"IndexError", "KeyError"}
+        missing = raises - covered
+        if missing:
+            out.append((t, f"the lookup raises {sorted(missing)}, the handler catches {sorted(caught)}"))
+        elif not raises and not any(isinstance(n, (ast.Subscript,)) for n in ast.walk(body)):
+            out.append((t, f"nothing in the guarded block raises what the handler catches ({sorted(caught)})"))
+    return out
+
+
+def lookup_failures_converted(repo: Repo, R):
+    rule = "C15.3-selection-well-formed"
+    if len(_lookup_handler_mismatches(ast.parse(_LOOKUP_SAMPLE))) != 1:
+        raise AnalysisError("self-check failed: the lookup/handler rule does not see its positive sample")
+    n = 0
+    for fi in repo.funcs_in("pdks/"):
+        if "/tests/" in fi.file.rel or not any(isinstance(t, ast.Try) for t in ast.walk(fi.node)):
+            continue
+        n += 1
+        mm = _lookup_handler_mismatches(fi.node)
+        R.check(not mm, rule, key_of(fi, "lookup-failure-converted"), fi.at(mm[0][0]) if mm else fi.site,
+                f"{fi.qual}: a failed lookup is caught by the handler that words the error" if not mm else f"{fi.qual}: {mm[0][1]}",
+                why="a request no device satisfies escapes as a bare StopIteration / IndexError instead of the descriptive error")
+    if n < 2:
+        raise AnalysisError(f"anchor-vanished: only {n} PDK functions with a try block")
+
+
+def request_not_mutated(repo: Repo, R):
+    """Compiling does not change what was asked for: the parameter object of the instance being compiled (which is also
+    the key of the walker's cache) is read, never written — neither directly nor through an alias of its __dict__."""
+    rule = "C15.4-caches"
+    MUT = ("pop", "popitem", "clear", "update", "setdefault", "__setitem__", "__delitem__")
+    n = 0
+    for fi in repo.funcs_in("pdks/"):
+        if "/tests/" in fi.file.rel or fi.cls is None or not fi.cls.name.endswith("Walker"):
+            continue
+        ps = [a.arg for a in fi.node.args.args if a.arg in ("params", "call") or a.arg.endswith("params")]
+        if not ps:
+            continue
+        n += 1
+        bad = []
+        for pn in ps:
+            roots = {pn, f"{pn}.params"}
+            def is_view(e):
+                # vars(p), p.__dict__ : the object's own attribute dict
+                if isinstance(e, ast.Call) and isinstance(e.func, ast.Name) and e.func.id == "vars" and len(e.args) == 1 and ast.unparse(e.args[0]) in roots:
+                    return True
+                if isinstance(e, ast.Attribute) and e.attr == "__dict__" and ast.unparse(e.value) in roots:
+                    return True
+                return False
+            aliases = set()
+            for st in au.walk_no_nested(fi.node):
+                if isinstance(st, ast.Assign) and len(st.targets) == 1 and isinstance(st.targets[0], ast.Name) and (is_view(st.value) or ast.unparse(st.value) in roots):
+                    aliases.add(st.targets[0].id)
+            def touched(e):
+                return is_view(e) or (isinstance(e, ast.Name) and e.id in aliases) or ast.unparse(e) in roots
+            for x in au.walk_no_nested(fi.node):
+                if isinstance(x, ast.Call) and isinstance(x.func, ast.Attribute) and x.func.attr in MUT and (is_view(x.func.value) or (isinstance(x.func.value, ast.Name) and x.func.value.id in aliases)):
+                    bad.append(x)
+                if isinstance(x, (ast.Assign, ast.AugAssign, ast.Delete)):
+                    tgts = x.targets if isinstance(x, (ast.Assign, ast.Delete)) else [x.target]
+                    for t in tgts:
+                        if isinstance(t, (ast.Attribute, ast.Subscript)) and touched(t.value):
+                            bad.append(x)
+                if isinstance(x, ast.Call) and (dotted(x.func) or "") in ("setattr", "object.__setattr__", "delattr") and x.args and ast.unparse(x.args[0]) in roots | aliases:
+                    bad.append(x)
+        R.check(not bad, rule, key_of(fi, "request-not-mutated"), fi.at(bad[0]) if bad else fi.site,
+                f"{fi.qual} reads its request parameters, never writes them" if not bad else f"`{ast.unparse(bad[0])[:80]}` changes the parameter object of the instance being compiled (also the cache key)",
+                why="after one device was compiled its parameters (and cache key) have changed: an unequal later request hits the cache and gets the wrong device")
+    if n < 6:
+        raise AnalysisError(f"anchor-vanished: only {n} walker methods taking request parameters")
